@@ -15,7 +15,9 @@ def run(ctx):
         "boundary (quick: one rotating position and format per program; thorough: every position x "
         "{JSON, MessagePack, bincode}); the VM is serialised, deserialised with the same built-ins and the "
         "rest runs on the restored VM; expected reads come from the same table because Checkpoint is a "
-        "stuttering step.  checkpoint-traces: deep random programs with checkpoint events validated by TLC "
+        "stuttering step.  checkpoint-diff: grammar-generated program pairs A|B (A biased to leave open groups, "
+        "open conditionals, definitions and recorded recoverable errors behind) run uncut and with a checkpoint "
+        "between them, all observations compared.  checkpoint-traces: deep random programs with checkpoint events validated by TLC "
         "(Checkpoint action of TexGroups).  Every run is a distinct (program, position, format)."
     )
     sfx = "" if q else "_thorough"
@@ -55,10 +57,34 @@ def run(ctx):
        timeout=7200)
     ntr, nev, rej = validate_traces(ctx, "Trace_TexGroups", "Trace_TexGroups.cfg", tr)
     ctx.add_bound("Checkpoint.traces", ntr, ntr, events=nev)
+    # a rejected trace whose uncut run reads the same is C01's to report: the checkpoint was transparent
+    inherited_tr = [r for r in rej if r["events"][0].get("uncut_same")]
+    rej = [r for r in rej if not r["events"][0].get("uncut_same")]
+    ctx.cov["parts"]["Checkpoint.traces"]["rejected_but_equal_to_uncut_run"] = len(inherited_tr)
     judge_rejections(ctx, rej, "Trace_TexGroups", {},
                      lambda r: f"checkpointed trace of {r['events'][0].get('program')!r} rejected at event "
                                f"{r['at']}: {json.dumps(r['unmatched'])}")
+    # differential form on arbitrary generated programs (open conditionals, recorded errors, ...)
+    dout = ctx.work / "cdiff.ndjson"
+    vh(["c08-diff", f"seed={ctx.seed}", f"n={2500 if q else 60000}", f"out={dout}"], stdout_path="/dev/null", timeout=7200)
+    nd = 0
+    for r in read_ndjson(dout):
+        if r["kind"] == "violation":
+            nd += 1
+            desc = (f"checkpoint ({r['format']}) between {r['before']!r} and {r['after']!r} changes behaviour: "
+                    f"uncut {r['uncut']} vs checkpointed {r['checkpointed']}")
+            if nd <= 5:
+                ctx.violation(desc, r)
+            else:
+                ctx.violations.append((desc, ""))
+        else:
+            ctx.add_bound("Checkpoint.diff", r["runs"], r["runs"], skipped_A_does_not_end_normally=r["skipped_A_does_not_end_normally"])
+            if r.get("sample"):
+                ctx.sample(r["sample"])
     ctx.assumptions += [
+        "checkpoint-diff: the oracle is the uncut run of the same text on the same code (Checkpoint is a stuttering "
+        "step, so every observation function of the state is unchanged); \\endinput, \\read, \\input, \\openin "
+        "and \\jobname are excluded there (their effect is tied to the source file or the harness terminal)",
         "checkpointed traces do not use \\gdef (texlang's recorded C01 deviation gdef-ignores-negative-globaldefs "
         "is C01's to report); in checkpoint-edges a read that differs from the table but equals the uncut run "
         "is counted, not reported",
